@@ -111,7 +111,7 @@ MUTANTS['C11'] = [
   ('del-clears-regardless', [(C, "            self.cache.close()\n            if self.clear:", "            self.cache.close()\n            if True:")]),
   ('del-never-clears', [(C, "            self.cache.close()\n            if self.clear:", "            self.cache.close()\n            if self.clear and not self.reuse:")]),
   ('diskcopy-second-wrapper', [(C, "        copy.input_dataset = self.input_dataset.copy(freeze)\n        copy._cache = self._cache\n        return copy", "        copy.input_dataset = self.input_dataset.copy(freeze)\n        copy._cache = _DiskCacheWrapper(self._cache.cache.directory, True, self._cache.clear)\n        return copy")]),
-  ('numpy-index-own-entry', [(C, "            item = int(item)\n", "            pass\n")]),
+  ('numpy-index-own-entry', [(C, "            # disk cache, which serializes the key).\n            item = int(item)\n", "            # disk cache, which serializes the key).\n            pass\n")]),
   ('key-path-stored-as-str', [(C, "        if isinstance(item, str):\n            item = self.keys().index(item)\n\n        if isinstance(item, numbers.Integral):\n            # numpy", "        if isinstance(item, str):\n            k = 'key:' + item\n            if k in self._cache:\n                return self._cache[k]\n            value = self.input_dataset[item]\n            self._cache[k] = value\n            return value\n\n        if isinstance(item, numbers.Integral):\n            # numpy")]),
   ('reuse-wipes-directory', [(C, "        self.cache = diskcache.Cache(cache_dir, eviction_policy='none')", "        self.cache = diskcache.Cache(cache_dir, eviction_policy='none')\n        if reuse and clear:\n            self.cache.clear()")]),
 ]
